@@ -69,5 +69,9 @@ func init() {
 	propMeta["C10"] = l2("gateway profile: Gateway API v1 objects only (no Ingress); non-trivial = at least one route was admitted and the state was judged after an incremental update; distinct = distinct trace signature",
 		"allowedRoutes and namespaces.from are never nil (the CRD defaults fill them); metadata.generation is bumped on every spec change as the API server does",
 		"listeners without TLS; HTTP listeners use the global bind port as documented")
+	propMeta["C17"] = meta{rule: "acme profile: each run = a world of ingresses (cert-signer / tls-acme), secrets in chosen states and 4..40 operations (ingress and secret changes, external checks, lease changes, clock advances of minutes to days), then faults stop, a day and the longest back-off pass; non-trivial = a certificate was wanted, the instance asked the queue for it and at least 2 reconciliations ran; distinct = distinct trace signature",
+		assumptions: []string{"the ACME account is complete and constant (emails, endpoint, terms agreed)", "leadership is a harness flag; the injected seam starts/stops the leader-only acme client and notifies the subscribers as svcLeader does", "a worker may finish the items that were ready when the lease was lost (each at most once)", "a certificate that enters the expiry window is due at the next periodic check", "metadata.generation of Ingress is bumped on every spec change as the API server does"},
+		real:        append(append([]string{}, realL2...), "pkg/acme signer (verify, storage of the result)", "pkg/controller/services svcAcmeClient and its work queue, acme periodic/external check", "pkg/haproxy instance AcmeUpdate/AcmeCheck, hatypes.AcmeStorages"),
+		stub:        append(append([]string{}, stubL2...), "ACME protocol client (Client.Sign): issues a certificate for the requested names, or fails on injected faults", "leader election: harness flag through an injected seam (no API server to hold a lease against)", "acme challenge responder (unix socket server): not started")}
 	propMeta["C12"] = l2("churn histories with disk/socket/reload/API faults, then faults stop and no further cluster change happens; non-trivial = at least one fault fired and the convergence check ran; distinct = distinct trace signature")
 }
